@@ -294,6 +294,13 @@ def long_cells(tier):
     for i, (n, p, sc, msl, growth) in enumerate(cells):
         yield {"n": n, "p": p, "seed": 7000 + i, "params": {"change_score": sc, "threshold_scale": 1.0, "level": 0.01, "min_segment_length": msl,
                                                              "max_interval_length": n, "growth_factor": growth}}
+    # moderate lengths at which the candidates have exactly k * 65536 admissible splits in total (a data-independent coincidence of
+    # n, min_segment_length, max_interval_length and the growth factor), and a wide recording (64 channels x 70000 rows: 4.2 million
+    # values per candidate) with a change exactly min_segment_length before the end of the series
+    for j, (n, p, msl, mil, end_shift) in enumerate([(7780, 1, 25, 7780, False), (25921, 1, 5, 1000, False), (70_000, 64, 2000, 70_000, True)]):
+        yield {"n": n, "p": p, "seed": 7100 + j, "end_shift": end_shift,
+               "params": {"change_score": None, "threshold_scale": 1.0, "level": 0.01, "min_segment_length": msl, "max_interval_length": mil,
+                          "growth_factor": 1.5}}
 
 
 def check_long(case):
@@ -302,7 +309,9 @@ def check_long(case):
     rng = np.random.Generator(np.random.PCG64(case["seed"]))
     X = rng.standard_normal((n, p))
     X[n // 2 + 2:] += 0.5
-    X[n // 5: n // 5 + 40_000] -= 0.8
+    X[n // 5: n // 5 + min(40_000, n // 10)] -= 0.8
+    if case.get("end_shift"):
+        X[n - msl:] += 1.0
     with sut("SeededBinarySegmentation.fit/predict (very long series)"):
         det = K.build(K.detector_spec("SeededBinarySegmentation", params)).fit(X)
         y = det.predict(X)
@@ -314,17 +323,22 @@ def check_long(case):
     amax = table["argmax_cpt"].to_numpy().astype(np.int64)
     sc = table["score"].to_numpy().astype(float)
     lens = ends - starts
-    if len(table) == 0 or np.any(starts < 0) or np.any(ends > n) or np.any(lens < 2 * msl) or np.any(lens > n):
+    if len(table) == 0 or np.any(starts < 0) or np.any(ends > n) or np.any(lens < 2 * msl) or np.any(lens > min(n, params["max_interval_length"])):
         raise Violation("candidate interval outside [0,n] or with length outside [2*msl, n]", n=n, msl=msl)
-    if lens.max() < n // 2:
+    if lens.max() < min(n, params["max_interval_length"]) // 2:
         raise Violation("no candidate interval of the order of max_interval_length = n", longest=int(lens.max()), n=n)
     if not np.all(np.isfinite(sc)):
         i = int(np.argmax(~np.isfinite(sc)))
         raise Violation("a candidate interval has a non-finite score", interval=[int(starts[i]), int(ends[i])], score=float(sc[i]))
-    # per-interval maximum for the 12 longest candidates and a seeded sample of 300 others, with an independent scorer
+    inadmissible = (amax < starts + msl) | (amax > ends - msl)
+    if np.any(inadmissible):
+        i = int(np.argmax(inadmissible))
+        raise Violation("reported maximiser is not an admissible split of its interval", interval=[int(starts[i]), int(ends[i])], argmax_cpt=int(amax[i]),
+                        row=i, rows=len(table))
+    # per-interval maximum for the 12 longest candidates, the last row and a seeded sample of 300 others, with an independent scorer
     oracle = K.build(oracle_scorer_spec(params["change_score"])).fit(X)
     order = np.argsort(-lens, kind="stable")
-    chosen = list(order[:12]) + [int(i) for i in rng.choice(len(table), size=min(300, len(table)), replace=False)]
+    chosen = list(order[:12]) + [len(table) - 1] + [int(i) for i in rng.choice(len(table), size=min(300, len(table)), replace=False)]
     for i in chosen:
         s_, e_ = int(starts[i]), int(ends[i])
         top, arg = -np.inf, -1
@@ -352,7 +366,9 @@ def check_long(case):
     if complete and frozenset(cpts) not in outcomes:
         raise Violation("reported changepoints are not an outcome of the greedy above-threshold selection", reported=cpts[:20],
                         greedy_outcomes=[sorted(o)[:20] for o in list(outcomes)[:3]], threshold=thr)
-    return {"nontrivial": bool(cpts), "classes": [f"n>={n // 1_000_000}e6", f"candidates={len(table)}", f"changepoints={min(len(cpts), 9)}"]}
+    total_splits = int(np.sum(lens - 2 * msl + 1))
+    return {"nontrivial": bool(cpts), "classes": [f"n>={n // 1_000_000}e6", f"candidates={len(table)}", f"changepoints={min(len(cpts), 9)}"] +
+            (["total_splits_multiple_of_65536"] if total_splits % 65536 == 0 else []) + (["wide_64_channels"] if p == 64 else [])}
 
 
 FACETS = [
